@@ -186,6 +186,31 @@ func placeFile(t *rapid.T, flags []string, file string) []string {
 	return append(out, flags[at:]...)
 }
 
+// sameButParseStats tells whether a run from bytecode printed what the run
+// from source printed, parse statistics aside (a loaded program has none):
+// without -s exactly the same; with -s the lines of the bytecode run must
+// occur in the source run in the same order, whatever the statistics look like.
+func sameButParseStats(load, source string, stats bool) bool {
+	if !stats {
+		return load == source
+	}
+	if load == stripPstats(source) {
+		return true
+	}
+	full := strings.SplitAfter(source, "\n")
+	k := 0
+	for _, l := range strings.SplitAfter(load, "\n") {
+		for k < len(full) && full[k] != l {
+			k++
+		}
+		if k == len(full) {
+			return false
+		}
+		k++
+	}
+	return true
+}
+
 func stripPstats(s string) string {
 	var out []string
 	for _, l := range strings.SplitAfter(s, "\n") {
@@ -450,7 +475,7 @@ func TestC18(t *testing.T) {
 				}
 				gl := runCLI(dir, "", argvL...)
 				c.Argvs = append(c.Argvs, argvL)
-				if gl.Status != got.Status || gl.Stderr != got.Stderr || gl.Stdout != stripPstats(got.Stdout) {
+				if gl.Status != got.Status || gl.Stderr != got.Stderr || !sameButParseStats(gl.Stdout, got.Stdout, fl.s) {
 					c.Note = "bload"
 					rec.Case(true, harness.Hash(src, strings.Join(argvL, " ")), feats...)
 					rec.Fail(t, c, "bcl %v does not reproduce bcl %v:\nstatus %d vs %d\nstdout %q\n    vs %q\nstderr %q\n    vs %q", argvL, argv1, gl.Status, got.Status,
